@@ -281,6 +281,12 @@ def generate(r, tier, prop):
             spec = {"name": "g%d" % i, "pre": [], "post": [], "snaps": [{}], "force_snaps": True}
             steps.append({"op": "bad", "kind": "snap_no_post", "spec": spec, "expect": "ValueError"})
             continue
+        if funcs and r.random() < 0.12:
+            # contracts put on functools.partial(f, ...) of an already contracted function: a new callable, f stays as it is
+            fc_ = [f_["name"] for f_ in funcs if f_["pre"] or f_["post"]]
+            if fc_:
+                steps.append({"op": "partial", "unit": r.choice(fc_), "role": r.choice(["pre", "post"])})
+                continue
         if classes and r.random() < 0.1:
             # a class re-created from its own namespace (dataclass(slots=True) style); the copy is then decorated further
             # (classes without the metaclass share their lists by reference by design: only contract classes are re-created)
